@@ -31,9 +31,10 @@ Kernels (DESIGN.md section 4, C17; K4 and K5 were added while writing the harnes
       defines differently (catalogue of forms: one per type of value and per kind of use) must behave in each case as
       when the case is run alone with `--suite`.
 
-Region (known_findings.json) in which exactly violates the statement on the pinned tree:
-  suite-instruction-line-nums-memo   `filter -line-nums RANGE` with RANGE given by a symbol, written in a suite file: the
-                                     ranges computed for the first case that runs are kept for the later cases
+Found by K5 on the pinned tree and fixed since (/repo db925b1, `fixed:` record in known_findings.json):
+`filter -line-nums RANGE` with RANGE given by a symbol, written in a suite file, kept the ranges computed for the first
+case that ran for the later cases of the suite run (a.case N=1 PASS, b.case N=2 FAIL in the suite, PASS with `--suite`).
+The region predicate `suite-instruction-line-nums-memo` is kept in _pre_k5; nothing switches it on.
 """
 from typing import List
 
@@ -233,6 +234,8 @@ def _pre_k2(m0: int, f0: int, t0: int, m1: int, f1: int, t1: int, tcfg: int, tcf
             return False
         if 'faults' in c and f not in c['faults']:
             return False
+        if 'faults_by_pos' in c and f not in c['faults_by_pos'][i]:
+            return False
         if 'mutations' in c and m not in c['mutations']:
             return False
         if L.MUTATIONS[m] != 'timeout-set' and ts[i] != 0:
@@ -295,7 +298,7 @@ def _k2_obligations(tier: str) -> List[Ob]:
         # two misbehaving cases before the observer
         sm = [i for i, cl in enumerate(L.MUT_CELLS) if cl[:2] == ('setup', 'main')][0]
         for ci in range(1, len(L.MUT_CELLS)):
-            plans.append(((sm, ci), ci % 2 == 0, dict(faults=(xh.OK, xh.EXC), tcfg_none=False)))
+            plans.append(((sm, ci), ci % 2 == 0, dict(faults_by_pos=((xh.OK,), (xh.OK,) if ci % 2 == 0 else (xh.HARD_EXC,)), tcfg_none=False)))
     for cells, envd, extra in plans:
         c = dict(cells=cells, environ_is_dict=envd)
         c.update(extra)
@@ -304,7 +307,9 @@ def _k2_obligations(tier: str) -> List[Ob]:
                       fn='k2_sequence', case=c, kernel='K2', timeout=1200 if len(cells) == 1 else 3000,
                       bound='%d cases on one executor: %s, then a case that observes at every step; ' % (len(cells) + 1, steps)
                             + what % (list(L.MUTATIONS), 'the fault kinds %s' % (
-                                [fault_names[f] for f in c['faults']] if 'faults' in c else all_faults,))
+                                [fault_names[f] for f in c['faults']] if 'faults' in c else
+                                ' then '.join(str([fault_names[f] for f in fs]) for fs in c['faults_by_pos'])
+                                if 'faults_by_pos' in c else all_faults,))
                             + '; configured environ: %s' % ('a dict' if envd else 'None (default getter)')
                             + ('; configured timeout: %s' % ('none' if c['tcfg_none'] else 'an integer') if 'tcfg_none' in c else ''),
                       real=REAL_K2, stubs=(STUB_INSTRUCTIONS, STUB_RESOLVER),
@@ -657,10 +662,14 @@ FORM_GROUPS = (
                                     'text from a here document with a symbol', 'text-source symbol')),
     ('filter+replace', ('filter -line-nums RANGE-FROM-SYMBOL', 'filter line-num == INTEGER-FROM-SYMBOL',
                         'filter contents matches REGEX-FROM-SYMBOL', 'replace REGEX-FROM-SYMBOL', 'text-transformer symbol',
-                        'line-matcher symbol')),
+                        'line-matcher symbol', 'filter -line-nums TWO-RANGES-FROM-SYMBOLS')),
     ('matchers+paths', ('text-matcher symbol', 'integer-matcher symbol', 'file-matcher symbol', 'files-matcher symbol',
                         'files-condition symbol', 'path symbol', 'exit-code == INTEGER-FROM-SYMBOL',
                         'file relative to the home directory of the case')),
+    ('more-uses', ('num-lines == INTEGER-FROM-SYMBOL', 'text-matcher matches REGEX-FROM-SYMBOL',
+                   'files selected by GLOB-FROM-SYMBOL', 'file contents from PATH-FROM-SYMBOL', 'path relative to PATH-SYMBOL',
+                   'symbol defined by the suite from a symbol of the case', 'program of an assertion with argument from symbol',
+                   'existing-file program argument from PATH-SYMBOL')),
 )
 
 
